@@ -61,10 +61,11 @@ CHECKS = [
          technique='Lean 4 theorems (window on return, no assertion after the fix, termination by a potential function, negation witness for the unrepaired code) + correspondence',
          text='Proof: whenever grading returns, it only refined, the invariant holds and every leaf is in the window '
               '(also stated with real powers); the repaired sweep never fails on a mesh satisfying the invariant; for '
-              'meshes with uniform root sizes (unit/pi square, circle, interval, split L-shape) grading terminates for '
-              'every p,q >= 1 (potential function). The abort of the original code is reproduced as a Lean negation '
+              'meshes with uniform root sizes (unit/pi square, circle, interval, split L-shape) and for root sizes related by '
+              'powers of two within an explicit sharp bound (unsplit L-shape) grading terminates (potential function); '
+              'divergence is proved for a custom grid outside that bound. The abort of the original code is reproduced as a Lean negation '
               'witness and on the real code, and repaired by a fix: commit.',
-         note='termination for non-uniform root sizes (e.g. unsplit L-shape 1,2,2,1,1,1) is explored, not proved'),
+         note='termination for root sizes that are not related by powers of two, or beyond the bound q*Bt+p*Bx < 4q+p, is explored (and can fail: proved divergence for X=[0,8,9], sigma=2)'),
     dict(id='C03', design_ref='DESIGN.md section 6 / C03', category='proof',
          technique='Lean 4 theorem (orthogonality as linear algebra over generated sign conventions) + ast-slice execution of example.py on a synthetic exact operator',
          text='Partial. Proved: for any linear element-mean functionals, if the density solves the assembled system '
